@@ -1,15 +1,105 @@
-(* Properties_C14.v — the JSON grammar accepts exactly RFC 8259 (property C14).
-   PROVISIONAL (being strengthened): sanity examples only; the theorems C14_sound, C14_no_raise,
-   C14_terminates, C14_complete are added as they are closed. *)
+(* Properties_C14.v — property C14: "The shipped JSON grammar, followed by end of input, succeeds
+   on a byte string if and only if that string is a well-formed UTF-8 encoded JSON text according
+   to RFC 8259, and never throws."
+
+   Objects:
+     json_table / json_root   gen/Json_gen.v, the table the C++ compiler dumped for
+                              seq< json::text, eof >, REGENERATED from /repo on every run
+     eval                     Engine.v, the model of match.hpp and of every rule class
+     JSON_text                Rfc8259.v, the RFC 8259 ABNF as inductive predicates over bytes
+                              (unescaped characters = well-formed UTF-8, RFC 3629, Utf.utf8_enc)
+     rfc8259_b                Rfc8259.v, the executable recogniser extracted as the check's oracle
+     void_cfg C               ExactTop.v: no veto/throwing actions, no raise-on-failure control
+                              (covers Action = nothing / Control = normal of a plain parse call)
+     bytes_ok s               every element of s is below 256
+   Statements hold for every such configuration C, every apply mode / rewind mode / action family /
+   control family d, every start position p and every fuel.  Proofs: JsonProof.v (about the generated
+   table), JsonLockstep.v / JsonSem.v (generic: engine = plain PEG reading), Rfc8259Facts.v. *)
 From Coq Require Import List NArith.
-From PegtlV Require Import Base Decode Grammar Engine Rfc8259 JsonModel.
+From PegtlV Require Import Base Decode Grammar Engine ExactSound ExactTop Rfc8259 Rfc8259Facts JsonModel JsonSem JsonLockstep JsonProof.
+From PegtlV.gen Require Import Json_gen.
 Import ListNotations.
 
-(* [1, {"a" : null}]  is accepted by the oracle and by the engine model on the generated table *)
+(* ---------- the oracle is the specification ---------- *)
+Theorem C14_oracle_is_spec : forall s : list N, rfc8259_b s = true <-> JSON_text s.
+Proof. exact rfc8259_b_correct. Qed.
+Print Assumptions C14_oracle_is_spec.
+
+(* ---------- soundness: whatever the engine accepts is an RFC 8259 JSON text ---------- *)
+Theorem C14_sound : forall (C : cfg) (d : dyn) (p : pos) (s : list N) (f : nat) (c' : cursor) (evs : list event),
+  void_cfg C -> bytes_ok s ->
+  eval json_table C f d json_root (mkcur s p) = Res Ok c' evs -> JSON_text s.
+Proof. intros C d p s f c' evs HC. exact (json_sound C HC d p s f c' evs). Qed.
+Print Assumptions C14_sound.
+
+(* ---------- completeness: every RFC 8259 JSON text is accepted, consuming all input ---------- *)
+Theorem C14_complete : forall (C : cfg) (d : dyn) (p : pos) (s : list N),
+  void_cfg C -> bytes_ok s -> JSON_text s ->
+  exists f c' evs, eval json_table C f d json_root (mkcur s p) = Res Ok c' evs /\ rest c' = [].
+Proof. intros C d p s HC. exact (json_complete C HC d p s). Qed.
+Print Assumptions C14_complete.
+
+(* ... and everything else is rejected by local failure (not by an exception, not by divergence) *)
+Theorem C14_rejects : forall (C : cfg) (d : dyn) (p : pos) (s : list N),
+  void_cfg C -> bytes_ok s -> ~ JSON_text s ->
+  exists f c' evs, eval json_table C f d json_root (mkcur s p) = Res Fail c' evs.
+Proof. intros C d p s HC. exact (json_rejects C HC d p s). Qed.
+Print Assumptions C14_rejects.
+
+(* ---------- never throws (and never touches memory outside the input: no Err) ---------- *)
+Theorem C14_no_raise : forall (C : cfg) (d : dyn) (p : pos) (s : list N) (f : nat),
+  void_cfg C -> bytes_ok s ->
+  match eval json_table C f d json_root (mkcur s p) with Res (Exc _) _ _ => False | Err => False | _ => True end.
+Proof. intros C d p s f HC. exact (json_no_raise C HC d p s f). Qed.
+Print Assumptions C14_no_raise.
+(* the syntactic reason: no must / raise / if_must / try_catch / action head in the generated table *)
+Theorem C14_no_raising_head : existsb (fun nd => raising_head (nhead nd)) json_table = false.
+Proof. exact json_no_raising_head. Qed.
+Print Assumptions C14_no_raising_head.
+
+(* ---------- termination: every input gets a verdict with finite fuel; more fuel never changes it ---------- *)
+Theorem C14_terminates : forall (C : cfg) (d : dyn) (p : pos) (s : list N),
+  void_cfg C -> bytes_ok s ->
+  exists f o c' evs, (o = Ok \/ o = Fail) /\
+    forall f', (f <= f')%nat -> eval json_table C f' d json_root (mkcur s p) = Res o c' evs.
+Proof. intros C d p s HC. exact (json_terminates C HC d p s). Qed.
+Print Assumptions C14_terminates.
+
+(* ---------- the extracted model column of the check (JsonModel.json_verdict) ---------- *)
+Theorem C14_model_is_oracle : forall s : list N, bytes_ok s ->
+  (exists f, forall f', (f <= f')%nat -> json_verdict f' s = if rfc8259_b s then VTrue else VFalse) /\
+  (forall f, json_verdict f s = VOutOfFuel \/ json_verdict f s = if rfc8259_b s then VTrue else VFalse).
+Proof. exact json_model_exact. Qed.
+Print Assumptions C14_model_is_oracle.
+
+(* ---------- sub-rules: json::value and json::text as plain PEG readings of the table ---------- *)
+Theorem C14_value_rule : forall s : list N, Sem json_table json_value s (scan_val s).
+Proof. exact value_total. Qed.
+Print Assumptions C14_value_rule.
+Theorem C14_text_rule : forall s : list N, Sem json_table json_text s (scan_text s).
+Proof. exact text_total. Qed.
+Print Assumptions C14_text_rule.
+
+(* ---------- the hypotheses are satisfiable; sample evaluations ---------- *)
+Example C14_void_cfg_example : void_cfg json_cfg.
+Proof. exact (no_actions_void _). Qed.
+Print Assumptions C14_void_cfg_example.
+Example C14_supported_example : supported json_table = true.
+Proof. exact json_supported. Qed.
+Print Assumptions C14_supported_example.
+
+(* [1, {"a" : null}] *)
 Definition sample : list N := [91; 49; 44; 32; 123; 34; 97; 34; 32; 58; 32; 110; 117; 108; 108; 125; 93]%N.
-Example C14_sample_oracle : rfc8259_b sample = true.
-Proof. vm_compute. reflexivity. Qed.
-Print Assumptions C14_sample_oracle.
+Example C14_sample_bytes : bytes_ok sample.
+Proof. unfold bytes_ok, sample. repeat constructor. Qed.
+Print Assumptions C14_sample_bytes.
+Example C14_sample_spec : JSON_text sample.
+Proof. apply rfc8259_b_correct. vm_compute. reflexivity. Qed.
+Print Assumptions C14_sample_spec.
 Example C14_sample_model : json_verdict 200 sample = VTrue.
 Proof. vm_compute. reflexivity. Qed.
 Print Assumptions C14_sample_model.
+(* 01 (leading zero) is not a JSON text, and the model rejects it *)
+Example C14_sample_reject : ~ JSON_text [48; 49]%N /\ json_verdict 200 [48; 49]%N = VFalse.
+Proof. split; [intros H; apply rfc8259_b_correct in H; vm_compute in H; discriminate | vm_compute; reflexivity]. Qed.
+Print Assumptions C14_sample_reject.
